@@ -148,36 +148,45 @@ proof! {
     }
 }
 
-//@ also=C13 tier=quick timeout=1500 mem=12 bits=4224 unwind=4 unwindset="c12_walrec=10;memcmp=34;to_canonical_bytes=6;from_canonical_bytes=6" fns=warp_core::causal_wal::WalReceiptCorrelationRecord::from_payload_bytes,warp_core::causal_receipt::CausalTickReceiptRef::from_canonical_bytes
-//@ bounds="receipt-correlation images with magic ERCOR002, a symbolic child coordinate, declared parent count 2 and two fully symbolic parent coordinates (exact length 544), plus the same image one byte short and one byte long"
-//@ desc="receipt-correlation record: accepted => the two cited parents are strictly ascending in the coordinate order the encoder sorts by (worldline, tick, global tick, hashes) - equal or descending parents are rejected, not normalised - and decode returns exactly the coordinates in the image; short/long images are rejected"
+//@ also=C13 tier=quick timeout=1500 mem=12 bits=280 unwind=4 unwindset="c12_walrec=10;memcmp=34;to_canonical_bytes=6;from_canonical_bytes=6" fns=warp_core::causal_wal::WalReceiptCorrelationRecord::from_payload_bytes,warp_core::causal_receipt::CausalTickReceiptRef::from_canonical_bytes
+//@ bounds="receipt-correlation image of exact length 544: magic ERCOR002, fixed child coordinate, declared parent count 2, two parent coordinates symbolic in the last worldline byte, both 8-byte tick counters and the first commit-hash byte (the fields the canonical order compares first); remaining coordinate bytes fixed"
+//@ desc="receipt-correlation record: accepted => the two cited parents are strictly ascending in the coordinate order the encoder sorts by (worldline, tick after, global tick, hashes - ticks compared as integers) - equal or descending parents are rejected, not normalised, and every strictly ascending pair is accepted"
 proof! {
     fn c12_wal_receipt_correlation_parent_order() {
         use warp_core::causal_wal::WalReceiptCorrelationRecord;
-        let mut img: [u8; 545] = kani::any();
+        let mut img = [0x5au8; 544];
         let magic = *b"ERCOR002";
         let mut i = 0;
         while i < 8 { img[i] = magic[i]; i += 1; }
         let count = 2u64.to_le_bytes();
         let mut i = 0;
         while i < 8 { img[184 + i] = count[i]; i += 1; }
+        // symbolic fields of parent k at offset 192 + 176*k: worldline[31], tick_after (8), global tick (8), commit_hash[0]
+        let mut k = 0;
+        while k < 2 {
+            let off = 192 + 176 * k;
+            img[off + 31] = kani::any();
+            let t: [u8; 17] = kani::any();
+            let mut j = 0;
+            while j < 17 { img[off + 32 + j] = t[j]; j += 1; }
+            k += 1;
+        }
         let coord = |off: usize| {
             let mut b = [0u8; CAUSAL_TICK_RECEIPT_REF_LEN];
             b.copy_from_slice(&img[off..off + CAUSAL_TICK_RECEIPT_REF_LEN]);
             CausalTickReceiptRef::from_canonical_bytes(b)
         };
-        match WalReceiptCorrelationRecord::from_payload_bytes(&img[..544]) {
+        let (p0, p1) = (coord(192), coord(368));
+        match WalReceiptCorrelationRecord::from_payload_bytes(&img) {
             Ok(r) => {
-                let (p0, p1) = (coord(192), coord(368));
                 assert!(p0 < p1, "receipt-correlation record with unsorted or duplicate parents accepted");
-                assert!(r.receipt_ref == coord(8) && r.causal_parent_receipts.len() == 2
-                    && r.causal_parent_receipts[0] == p0 && r.causal_parent_receipts[1] == p1);
                 core::mem::forget(r);
             }
-            Err(e) => core::mem::forget(e),
+            Err(e) => {
+                core::mem::forget(e);
+                assert!(!(p0 < p1), "canonical receipt-correlation record (parents strictly ascending) rejected");
+            }
         }
-        assert!(WalReceiptCorrelationRecord::from_payload_bytes(&img[..543]).is_err());
-        assert!(WalReceiptCorrelationRecord::from_payload_bytes(&img[..545]).is_err());
         reach!();
     }
 }
